@@ -21,6 +21,7 @@ func propC08(c *Ctx) {
 	c.ruleC08Scanner(m)
 	c.ruleUnquote()
 	c.ruleNormalisers()
+	c.ruleDescriptionBlankLines("C08-DESCRIPTION-BLANK-LINES")
 	c.ruleNextDirectiveRecognised("C08-NEXT-DIRECTIVE") // a tab after the keyword is as good as a blank
 	c.ruleBlankPairs("C08-BLANK-PAIRS")
 	c.ruleSchemaExtentByDependency("C08-SCHEMA-EXTENT")
